@@ -279,6 +279,75 @@ _ss.call_ensures = {}
 _ss.modifies = {}
 _ss.effects = {"skipped": "ghost('skipped') + ([(path, method)] if result else [])", "skip_defs": "ghost('skip_defs') + [definition]"}
 
+
+# ------------------------------------------------------------------------------------------------- FilterSet._add_filter / include / exclude: the options given become exactly the matchers of ONE new filter
+class _FreshSet(D):
+    def make(self, it, name, idx=()):
+        return set()
+
+
+for _kind in ("for_value", "for_regex", "for_function"):
+    R.contract(F + "Matcher." + _kind, abstract_only=True, args={},
+               returns=(lambda kind: (lambda it, env: (kind, env["func"]) if kind == "for_function" else (kind, env["attribute"], env["expected"] if kind == "for_value" else env["regex"])))(_kind),
+               note="matcher constructors (own contracts: Matcher.match / by_value / by_value_list / by_regex)")
+R.exception_classes["IncorrectUsage"] = "schemathesis.core.errors:IncorrectUsage"
+_Val = lambda: OneOf(NoneT, Str)
+
+
+def _upper(it, v):
+    from pyvc.builtins_ import str_method
+
+    if isinstance(v, list):
+        return [_upper(it, x) for x in v]
+    return v.upper() if isinstance(v, str) else str_method(it, v, "upper", [], {})
+
+
+R.spec_funcs["upper_of"] = _upper
+EXPECTED_MATCHERS = ("([('for_function', func)] if func is not None else []) + "
+                     "([('for_value', 'label', name)] if name is not None else []) + ([('for_regex', 'label', name_regex)] if name_regex is not None else []) + "
+                     "([('for_value', 'method', upper_of(method))] if method is not None else []) + "
+                     "([('for_value', 'path', path)] if path is not None else []) + ([('for_regex', 'path', path_regex)] if path_regex is not None else []) + "
+                     "([('for_value', 'tag', tag)] if tag is not None else []) + "
+                     "([('for_value', 'operation_id', operation_id)] if operation_id is not None else []) + ([('for_regex', 'operation_id', operation_id_regex)] if operation_id_regex is not None else [])")
+CLASH = "((name is not None and name_regex is not None) or (path is not None and path_regex is not None) or (operation_id is not None and operation_id_regex is not None))"
+R.contract(
+    F + "FilterSet._add_filter",
+    prop="C07",
+    args={"self": Obj(F + "FilterSet", _includes=_FreshSet(), _excludes=_FreshSet()), "include": Bool, "func": OneOf(NoneT, Opq("UserPredicate")), "name": _Val(), "name_regex": _Val(),
+          "method": OneOf(NoneT, Str, ListOf(Str, [1, 2], widen=False)), "method_regex": NoneT, "path": _Val(), "path_regex": _Val(), "tag": _Val(), "tag_regex": NoneT,
+          "operation_id": _Val(), "operation_id_regex": _Val()},
+    raises=["IncorrectUsage"],
+    ensures={
+        # every option the user gave (and nothing else) is a criterion of the ONE new filter - a filter matches when ALL its criteria match (Filter.match) -
+        # on the include side for include(), on the exclude side for exclude(); method names are compared upper-cased
+        "one_new_filter_with_exactly_the_given_criteria": "length(self._includes) + length(self._excludes) == 1 and "
+            "all(list(f.matchers) == " + EXPECTED_MATCHERS + " for f in list(self._includes) + list(self._excludes))",
+        "on_the_side_asked_for": "(length(self._includes) == 1) == include",
+        "accepted_only_if_well_formed": "not " + CLASH + " and length(" + EXPECTED_MATCHERS + ") > 0",
+    },
+    raises_ensures={
+        "rejected_only_if_ill_formed_and_then_nothing_is_added": "raised == 'IncorrectUsage' and (" + CLASH + " or length(" + EXPECTED_MATCHERS + ") == 0) and length(self._includes) + length(self._excludes) == 0",
+    },
+    bounded_note="a filter set without earlier filters (the duplicate-filter rejection is not reached); method lists up to 2 entries",
+    replayable=False,
+    max_paths=20000,
+)
+R.contracts[F + "_normalize_method"].inline = True  # (call sites follow the real bodies; both have their own verified contracts)
+R.contracts[F + "FilterSet._add_filter"].inline = True
+for _side, _flag in (("include", True), ("exclude", False)):
+    R.contract(
+        F + "FilterSet." + _side,
+        prop="C07",
+        args={"self": Obj(F + "FilterSet", _includes=_FreshSet(), _excludes=_FreshSet()), "func": NoneT, "name": _Val(), "name_regex": NoneT, "method": _Val(), "method_regex": NoneT,
+              "path": NoneT, "path_regex": _Val(), "tag": _Val(), "tag_regex": NoneT, "operation_id": NoneT, "operation_id_regex": _Val()},
+        raises=["IncorrectUsage"],
+        ensures={
+            "adds_on_its_own_side_only": "length(self._" + _side + "s) == 1 and length(self._" + ("excludes" if _flag else "includes") + ") == 0",
+            "every_option_is_passed_on_under_its_own_name": "all(list(f.matchers) == " + EXPECTED_MATCHERS + " for f in list(self._includes) + list(self._excludes))",
+        },
+        replayable=False,
+    )
+
 LEVEL_TEXT = ("Deductive: the selection rule of the property is the machine-checked postcondition of the real FilterSet.match (loop invariant, sets of any size); "
               "matchers, attribute access, _should_skip (with an arbitrary stale shared cache), the GraphQL variant and the link rule carry their own contracts, "
               "all discharged by z3 from the current source on every run. Whole-document iteration is cross-checked by a bounded stand-in only.")
